@@ -1,4 +1,5 @@
 import HioModel.Tcp.FaultLemmas
+import HioModel.Tcp.LifeLemmas
 /-!
 # C10 — connection-level socket faults never escape servicing
 
@@ -120,10 +121,26 @@ theorem listed_faults_benign (k : Kind) (e : Nat) (he : e ∈ Gen.Tcp.connFaultE
   exact ⟨Or.inr (conn_fault_is_cutoff_partial _ hs e he hne), Or.inr (conn_fault_is_cutoff_partial _ hr e he hne)⟩
 
 example : Benign { kind := .clientTls, sends := [.acc 3, .fault 104], recvs := [.data [1], .fault 1008] } := by
-  refine ⟨?_, ?_⟩ <;> intro r hr <;> simp at hr <;> rcases hr with rfl | rfl
+  refine ⟨Or.inl rfl, ?_, ?_⟩ <;> intro r hr <;> simp at hr <;> rcases hr with rfl | rfl
   · trivial
   · exact Or.inr (by decide +kernel)
   · trivial
   · exact Or.inr (by decide +kernel)
+
+/-- C10.2 (client side, connect/handshake passes, multi-pass): for every `Client`/`ClientTls`, reconnectable or not, and every
+history of reopen / close / ticks / serviceConnect — in particular the passes that FOLLOW an aborted handshake — no call
+raises, provided every handshake response is one the code classifies (done / would-block / aborted);
+`handshake_fault_is_aborted` shows that all listed connection-level faults, TLS EOF and ECONNABORTED are of that kind -/
+theorem client_connect_total (tls reconnectable : Bool) (tymeout : Nat) (ops : List COp) (ho : ∀ op ∈ ops, op.ok) :
+    Cli.NoRaise (Cli.make tls reconnectable tymeout) ops :=
+  Cli.noRaise_of_calm ops _ (by intro h hh; simp [Cli.make] at hh) ho
+
+example : ∀ op ∈ [COp.connect 0 (some (.fault 104)), COp.connect 0 none, COp.connect 0 (some .ok)], op.ok := by
+  intro op h
+  simp at h
+  rcases h with rfl | rfl | rfl
+  · exact Or.inr (Or.inl (by decide +kernel))
+  · trivial
+  · trivial
 
 end Hio.Tcp
